@@ -204,6 +204,29 @@ def t_cpp_guard(facts, res, tier):
             if isinstance(inner, StructV) and inner.name.endswith("Compiler"):
                 key = "T-CPP-GUARD:#error:return"
                 seen.setdefault(key, []).append((p["init"] == {"Active"}, {"node": blk, "state": p["init"]}, p))
+    # a directive of an unselected region has no effect at all - not even a complaint about its operand: inside the code of
+    # #error / #define / #undef / #include every `?` and every `return Err(..)` lies under the test `state == State::Active`
+    from scopes import scoped
+    for node, env, doms in scoped(fn):
+        if node.get("k") not in ("try", "return"):
+            continue
+        if node.get("k") == "return" and "Err" not in expr_text(node):
+            continue
+        directive = None
+        active = False
+        for d in doms:
+            if d[0] == "cond" and d[2]:
+                t = expr_text(d[1]).replace(" ", "")
+                m = re.search(r'directive==\"(#\w+)\"', t) or re.search(r'directive==("?)(#\w+)\1', t)
+                if m:
+                    directive = m.group(m.lastindex)
+                if re.search(r"%s==State::Active" % re.escape(sv), t):
+                    active = True
+            if d[0] == "arm" and isinstance(d[2], dict) and d[2].get("k") == "lit" and str(d[2].get("v", "")).startswith("#"):
+                directive = d[2]["v"]
+        if directive in ("#error", "#define", "#undef", "#include"):
+            key = "T-CPP-GUARD:%s:error-return" % directive
+            seen.setdefault(key, []).append((active, {"node": node, "state": None if active else {"any"}}, None))
     for key, lst in sorted(seen.items()):
         res.inst(key, True, {"sites": len(lst)})
         bad = [x for x in lst if not x[0]]
